@@ -724,10 +724,10 @@ def gen_hists(tier, rng, entries):
     # histories on methods whose wrapper calls runtime.duffcopy crash the probe process on a tree without repair F27 (one
     # restart each): keep a bounded number of them (spread over the lanes), all others are unaffected
     duff_ids = {str(e['id']) for e in entries if e.get('duff')}
-    cap, kept, out = (14 if tier == 'quick' else 150), collections.Counter(), []
+    cap, kept, out = (8 if tier == 'quick' else 150), collections.Counter(), []
     for lane, steps in H:
         if any(tok.rsplit('~', 2)[-1] in duff_ids or tok.rsplit('~', 2)[-2] in duff_ids for tok in steps if '~' in tok and tok.split('~')[0] not in ('A', 'T', 'S', 'W', 'SW', 'C', 'GA', 'GU')):
-            if sum(kept.values()) >= cap or kept[lane] >= 3:
+            if sum(kept.values()) >= cap or kept[lane] >= 2:
                 continue
             kept[lane] += 1
         out.append((lane, steps))
@@ -1240,7 +1240,7 @@ def run(tier):
     known_idx = {i for i, why, key in bad if key in known_keys}      # the model describes the repaired code there
     def same_modulo_known(i):
         # while C06-K4 is an unrepaired known finding the code spells names in the dotted package unescaped
-        return ('dotted-package-byname' in known_keys and any('y.v2' in t for t in hists[i])
+        return ('dotted-package-byname' in known_keys and '%2e' in model[i]
                 and impl[i] is not None and impl[i] == model[i].replace('%2e', '.'))
     diffs = [(i, hists[i], impl[i], model[i]) for i in range(len(hists))
              if model is not None and impl[i] != model[i] and lanes[i][0] != 'k1-poison' and i not in known_idx and not same_modulo_known(i)]
